@@ -206,6 +206,7 @@ package main
 //@   ensures [C03] detached: forall s *Session :: (s in t.sessions) && s != nil && s.multi == nil ==> t.sessions[s].uid != uid
 //@   ensures [C06] modes_kept: forall u types.Uid :: (u in t.perUser) && old(u in t.perUser) ==> t.perUser[u].modeWant == old(t.perUser[u].modeWant) && t.perUser[u].modeGiven == old(t.perUser[u].modeGiven)
 //@   ensures [C06] others_stay: forall u types.Uid :: u != uid ==> (u in t.perUser) == old(u in t.perUser)
+//@   ensures [C10] online_not_raised: forall u types.Uid :: (u in t.perUser) && old(u in t.perUser) ==> t.perUser[u].online == old(t.perUser[u].online) || t.perUser[u].online == 0
 //@   ensures [C06] subscriber_stays: !unsub && old((uid in t.perUser) && !t.perUser[uid].isChan) ==> (uid in t.perUser)
 //@   modifies inferred
 //@   loop 1
@@ -393,6 +394,7 @@ package main
 //@   ensures [C07] join_gate: err == nil && (asUid in t.perUser) ==> hasJ(t.perUser[asUid].modeGiven) || !hasJ(t.perUser[asUid].modeWant)
 //@   ensures [C07] p2p_modes: t.cat == types.TopicCatP2P && (asUid in t.perUser) && t.perUser[asUid].modeWant != old(t.perUser[asUid].modeWant) ==> (t.perUser[asUid].modeWant & ^types.ModeCP2P) == 0 && (t.perUser[asUid].modeWant & types.ModeApprove) != 0
 //@   assert at call store.SubsPersistenceInterface.Create [C07] limit: t.cat == types.TopicCatGrp && !asChan && !old(asUid in t.perUser) ==> len(t.perUser) < globals.maxSubscriberCount
+//@   ensures [C10] online_not_raised: forall u types.Uid :: (u in t.perUser) && old(u in t.perUser) ==> t.perUser[u].online <= old(t.perUser[u].online) || t.perUser[u].online == 0
 //@   ensures [C07] sys_root_only: t.cat == types.TopicCatSys && !old((asUid in t.perUser) && !t.perUser[asUid].deleted) && pkt.AuthLvl != int(auth.LevelRoot) ==> err != nil && (asUid in t.perUser) == old(asUid in t.perUser)
 
 // {set sub} / invite / approval acting on another user's subscription.
@@ -613,3 +615,29 @@ package main
 //@   ensures [C02] fresh_copy: src != nil ==> dst != nil && dst != src && dst.Id == src.Id && dst.SkipSid == src.SkipSid
 //@   ensures [C02] data_copied: src != nil && src.Data != nil ==> dst.Data != nil && dst.Data != src.Data && dst.Data.Topic == src.Data.Topic && dst.Data.From == src.Data.From && dst.Data.SeqId == src.Data.SeqId && dst.Data.Content == src.Data.Content && dst.Data.Head == src.Data.Head && dst.Data.Timestamp == src.Data.Timestamp
 //@   ensures [C02] data_absent: src != nil && src.Data == nil ==> dst.Data == nil
+
+// C10: online accounting. A user's count of online sessions in a topic goes up only by the {sub} that attaches a
+// foreground session of that user - by exactly one - and a disabled contact on 'me' is always kept offline.
+//@ func (t *Topic) subscriptionReply(asChan bool, msg *ClientComMessage) (err error)
+//@   requires [C10] t != nil && msg != nil && msg.Sub != nil && msg.sess != nil
+//@   requires [C06] owner_cached: (t.owner in t.perUser) ==> !t.perUser[t.owner].deleted && !t.perUser[t.owner].isChan && t.cat == types.TopicCatGrp
+//@   requires [C06] owner_known: t.owner == types.ParseUserId(msg.AsUser) ==> (t.owner in t.perUser)
+//@   requires [C06] owner_grp_only: t.cat != types.TopicCatGrp ==> (forall u types.Uid :: (u in t.perUser) ==> !hasO(t.perUser[u].modeGiven))
+//@   requires [C07] p2p_wf: t.cat == types.TopicCatP2P ==> (t.accessAuth & ^types.ModeCP2P) == 0 && (t.accessAnon & ^types.ModeCP2P) == 0 && (forall u types.Uid :: (u in t.perUser) ==> (t.perUser[u].modeGiven & ^types.ModeCP2P) == 0 && (t.perUser[u].modeGiven & types.ModeApprove) != 0)
+//@   modifies *
+//@   ensures [C10] counted_once_when_attached: forall u types.Uid :: (u in t.perUser) && old(u in t.perUser) && t.perUser[u].online > old(t.perUser[u].online) ==> u == types.ParseUserId(old(msg.AsUser)) && t.perUser[u].online == old(t.perUser[u].online) + 1 && !msg.sess.background && err == nil
+
+// Presence notifications pass only to holders of P, except removal and permission-change notices.
+//@ func (t *Topic) passesPresenceFilters(pres *MsgServerPres, uid types.Uid) (pass bool)
+//@   requires [C10] t != nil && pres != nil
+//@   modifies nothing
+//@   ensures [C10] presencers_only: pass && uid != types.ZeroUid && (uid in t.perUser) ==> (effMode(t, uid) & types.ModePres) != 0 || pres.What == "gone" || pres.What == "acs"
+//@   ensures [C10] strangers_muted: pass && uid != types.ZeroUid && !(uid in t.perUser) ==> pres.What == "gone" || pres.What == "acs"
+
+// Presence bookkeeping on 'me': a contact whose notifications are disabled is recorded as offline.
+//@ func (t *Topic) procPresReq(fromUserID string, what string, wantReply bool) (res string)
+//@   requires [C10] t != nil
+//@   requires [C10] inv: forall k string :: (k in t.perSubs) && !t.perSubs[k].enabled ==> !t.perSubs[k].online
+//@   modifies inferred
+//@   ensures [C10] disabled_is_offline: forall k string :: (k in t.perSubs) && !t.perSubs[k].enabled ==> !t.perSubs[k].online
+//@   ensures [C10] only_sender_entry: forall k string :: k != fromUserID ==> (k in t.perSubs) == old(k in t.perSubs) && t.perSubs[k].online == old(t.perSubs[k].online) && t.perSubs[k].enabled == old(t.perSubs[k].enabled)
